@@ -155,6 +155,8 @@ def _trace_one(exe, top, tag, fg, umask, res):
             path, flags, mode, fd = m.group(1), m.group(2), m.group(3), int(m.group(4))
             if fd >= 0:
                 fd_path[fd] = path
+            if path == paths["seed"] and "O_CREAT" not in flags and "O_RDONLY" in flags:
+                out.setdefault("seed_open", set()).add("O_NONBLOCK" in flags or "O_NDELAY" in flags)
             if path in rev and ("O_CREAT" in flags or "creat(" in line) and fd >= 0 and mode is not None:
                 created[rev[path]] = {"req": int(mode, 8), "mask": in_force, "chmod": None}
             continue
@@ -220,6 +222,12 @@ def observe(repo, incs, defs, probes_dir):
             if len(seen) != 1:
                 raise RuntimeError("call site %s passes varying flags %s" % (s, sorted(seen)))
             flags[s] = seen.pop()
+        so = set()
+        for r in res.values():
+            so |= r.get("seed_open", set())
+        if len(so) != 1:
+            raise RuntimeError("read-open of the seed file not seen, or seen with varying flags: %s" % sorted(so))
+        flags["seed_open_nonblock"] = so.pop()
         recipes = {}
         for md in ("fg", "bg"):
             for f in FILES:
@@ -259,6 +267,8 @@ def gen(api):
     out.append("(* flags each call site hands to path_is_secure (observed through -Wl,--wrap on a real start) *)")
     for s in SITES:
         out.append("Definition %s_flags : N := %d." % (s, flags[s]))
+    out.append("(* does _random_read_seed open the seed with O_NONBLOCK (a FIFO in its place cannot block the start) *)")
+    out.append("Definition seed_open_nonblock : bool := %s." % ("true" if flags["seed_open_nonblock"] else "false"))
     out.append("(* recipe of each created file: (requested mode, keep, or, final chmod); the umask in force at the")
     out.append("   creating call is (inherited land keep) lor or; fg = munged -F, bg = daemon mode.")
     out.append("   Socket: requested = mode of a fresh AF_UNIX socket inode before the umask is applied by bind(2). *)")
